@@ -145,6 +145,10 @@ def _run_world(mode, q, orders, seq, isolation, only_strategy=None, variant=None
         # after the first trading update the market is suspended (new version) and re-opened (new version): persisted
         # orders keep resting, and the volume queued ahead of them keeps its place too
         ticks = ticks[:1] + [[200, ["SUS"]], [200, ["OPN"]]] + ticks[1:]
+    if variant == "other-runner-between":
+        # runner 2 gets the same book as runner 1, so that an order at the same price rests there too
+        b1 = book_for(mode, q)[1]
+        spec = simx.MarketSpec(book0={1: b1, 2: {k: [list(x) for x in v] for k, v in b1.items()}})
     scripts = [dict(), dict()]
     index = []
     for n, (side, price, sidx, late) in enumerate(orders):
@@ -161,6 +165,10 @@ def _run_world(mode, q, orders, seq, isolation, only_strategy=None, variant=None
             continue
         scripts[sidx].setdefault((0, 1 if late else 0), []).append(["P", dict(sel=1, side=side, price=price, size=SIZE, pers="PERSIST" if variant == "suspended-reopened" else "LAPSE")])
         index.append(n)
+        if variant == "other-runner-between" and n == 0:
+            # the same strategy's order on ANOTHER runner, same side and price, placed between its orders on
+            # runner 1 (nothing trades on runner 2): the runner-1 orders still share runner 1's traded volume
+            scripts[sidx][(0, 0)].append(["P", dict(sel=2, side=side, price=price, size=SIZE)])
     skw = dict(max_order_exposure=None, max_selection_exposure=None, max_live_trade_count=10)
     h = Hooks()
     L._install_created_tracking()
@@ -189,7 +197,7 @@ def _one(args):
     # map orders: strategy k's created orders in creation order
     objs = []
     cursor = {0: 0, 1: 0}
-    created = {k: getattr(w.strategies[k], "_created", []) for k in (0, 1)}
+    created = {k: [o for o in getattr(w.strategies[k], "_created", []) if o.selection_id == 1] for k in (0, 1)}
     # creation order inside a strategy: update-0 orders first, then late ones
     per_s = {0: [], 1: []}
     for n, (side, price, sidx, late) in enumerate(orders):
@@ -315,6 +323,14 @@ def run(tier):
     # set-up variants: two clients with a user middleware registered before the second client; queue shrinking on
     # the very update that acknowledges the orders
     vseqs = [s for s in seqs if len(s) <= 2]
+    for mode in ("BACK", "LAY"):
+        for q in (0, 2):
+            for orders in order_configs(mode):
+                if len(orders) != 2 or any(o[3] for o in orders) or orders[0][2] != orders[1][2]:
+                    continue
+                for seq in vseqs:
+                    for iso in (True, False):
+                        jobs.append((mode, q, orders, seq, iso, "other-runner-between"))
     for variant in ("two-clients", "queue-shrinks-on-arrival", "suspended-reopened", "other-line-first"):
         for mode in ("BACK", "LAY"):
             for q in (2, 6):
